@@ -73,6 +73,11 @@ type mapMeta struct {
 	inline    bool
 }
 
+// workingMap marks the struct decoder's private working copy of its source when it is handed to the decoder
+// of an inline field: an inline struct deletes the keys of its own fields from that same copy and an inline
+// map takes (and clears) what is left. A source that is not so marked is never modified by decoding.
+type workingMap struct{ Map }
+
 const tagMap = "json"
 
 var _ Map = (*immutableMap)(nil)
@@ -728,7 +733,10 @@ func newMapDecoder(decoder *encoding.DecodeAssembler[Value, any]) encoding.Decod
 					}
 
 					var m Map
-					if s, ok := source.(Map); ok {
+					working := false
+					if w, ok := source.(workingMap); ok {
+						m, working = w.Map, true
+					} else if s, ok := source.(Map); ok {
 						m = s
 					} else {
 						return errors.WithStack(encoding.ErrUnsupportedType)
@@ -752,7 +760,10 @@ func newMapDecoder(decoder *encoding.DecodeAssembler[Value, any]) encoding.Decod
 						t.SetMapIndex(k.Elem(), v.Elem())
 					}
 
-					m.Clear()
+					if working {
+						// An inline map takes everything that is left in the struct decoder's working copy.
+						m.Clear()
+					}
 					return nil
 				}), nil
 			} else if typ.Elem().Kind() == reflect.Struct {
@@ -777,7 +788,7 @@ func newMapDecoder(decoder *encoding.DecodeAssembler[Value, any]) encoding.Decod
 					var dec encoding.Decoder[Map, unsafe.Pointer]
 					if meta.inline {
 						dec = encoding.DecodeFunc(func(source Map, target unsafe.Pointer) error {
-							return child.Decode(source, unsafe.Pointer(uintptr(target)+offset))
+							return child.Decode(workingMap{source}, unsafe.Pointer(uintptr(target)+offset))
 						})
 					} else {
 						dec = encoding.DecodeFunc(func(source Map, target unsafe.Pointer) error {
@@ -805,8 +816,12 @@ func newMapDecoder(decoder *encoding.DecodeAssembler[Value, any]) encoding.Decod
 					}
 
 					var m Map
-					if s, ok := source.(Map); ok {
-						m = s.Mutable()
+					if w, ok := source.(workingMap); ok {
+						m = w.Map
+					} else if s, ok := source.(Map); ok {
+						// A private copy: the field decoders delete the keys they consume, and the source
+						// (which may be a mutable map owned by the caller) must stay as it is.
+						m = s.Immutable().Mutable()
 					} else {
 						return errors.WithStack(encoding.ErrUnsupportedType)
 					}
